@@ -355,6 +355,12 @@ impl GrandState {
             ));
         }
         if option == EnterSubshellOption::Ignore {
+            if self.current_state.action != Action::Ignore {
+                // The subshell starts ignoring the signal by itself, so the
+                // action can be changed later, unlike a signal that has been
+                // ignored since the shell started (see also `Self::ignore`).
+                self.current_state.origin = Origin::Subshell;
+            }
             self.current_state.action = Action::Ignore;
         }
 
